@@ -49,6 +49,8 @@ func evalCanon(s zygo.Sexp, d int) string {
 		return "fn"
 	case *zygo.SexpLazyArg:
 		return "lazy"
+	case *zygo.SexpSymbol:
+		return x.Name() // symbols occur as data only in the source `substitute` returns (C16)
 	case *zygo.SexpArray:
 		if d == 0 {
 			return "..."
